@@ -26,6 +26,23 @@ CLAIMED = {
    note=TB % 'c02' + "Modelled not verified: IEEE rounding and numba code generation (bounded "
         "from outside by the jit-vs-source suite); property maps are C14's subject.",
    technique='Lean 4 ring identities + summation by parts over a generic field; exact-rational correspondence with the kernel source'),
+ 'C03': dict(
+   text="Proof (Lean 4, arbitrary field K, all grid sizes): the smoothers are modelled as block "
+        "Gauss-Seidel relaxation of the operator of C02 (node blocks of six edges; x/y/z line "
+        "blocks; forward/backward ordering; nu sweeps; smoothing() dispatch with two-cell "
+        "adaptation). Theorems: the equations of the block relaxed last hold exactly afterwards; a "
+        "field solving the system is a fixed point; the result is linear in (field, source); only "
+        "interior edges are ever written; no line kernel is selected along a two-cell direction; "
+        "the pivot-free LDL^T solver returns the exact solution of its banded symmetric system for "
+        "every n (induction), given non-zero pivots. Tie to code: the kernels' Python source run on "
+        "exact Gaussian rationals equals the model entry by entry (the model builds each block "
+        "system from the operator, not from the kernels' coefficients); core.solve vs model; "
+        "compiled kernels vs source; property oracle on the real code.",
+   design='§4 C03',
+   note=TB % 'c03' + "Hypothesis of fixed-point/linearity theorems: block systems non-singular "
+        "(BlockInj) resp. non-zero pivots - the documented precondition; witnessed per executed case "
+        "by the model's success flag. Not covered: rounding-error growth without pivoting.",
+   technique='Lean 4: block-relaxation refinement + LDL^T induction; exact-rational correspondence with kernel sources'),
  'C05': dict(
    text="Proof (Lean 4) about the control model MGH.mgTrace of multigrid(): descent invariant "
         "(only even directions >2 are halved, never the semicoarsening direction, the degenerate "
